@@ -81,6 +81,9 @@ private:
     }
 
 public:
+    // the abstract states expanded so far (for the cross-check with TLC)
+    std::vector<SKey> visitedStates() const { return std::vector<SKey>(expanded.begin(), expanded.end()); }
+
     void explore(const std::vector<int>& prefix){
         if(shouldStop && shouldStop()){ stats.capped = true; return; }
         if(breadcrumb) breadcrumb(prefix);
